@@ -293,6 +293,10 @@ class SrcDB(object):
                 elif dn and dn.split('.')[-1] in ('setter', 'deleter',
                                                   'getter'):
                     kind = 'property_' + dn.split('.')[-1]
+                elif dn in ('contextlib.contextmanager', 'contextmanager'):
+                    pass        # a generator used with `with`: the kind of
+                    #             method it is does not change (normalize
+                    #             inlines it where it is used)
                 else:
                     raise AnalysisError('unknown decorator %s on %s.%s' % (
                         ast.unparse(d), ci.qualname, st.name), st, rel(m.path))
